@@ -913,6 +913,7 @@ func scVoteRace(d *Driver) {
 func scLateVote(d *Driver, ups []*AppNode) {
 	d.r.Shuffle(len(ups), func(i, j int) { ups[i], ups[j] = ups[j], ups[i] })
 	c1, c2, v := ups[0].ID, ups[1].ID, ups[2].ID
+	dbg("late-vote: candidates", c1, c2, "voter", v)
 	d.loseUnsynced = true
 	d.holdTypes[pb.MsgVote] = true
 	for _, c := range []uint64{c1, c2} {
